@@ -1,5 +1,5 @@
 (* C17: the keyword clause of [lex_ok] is the decidable predicate [c17_kw_clause] (Spec/LexKeyword.v). *)
-From Soy Require Import Model.Bytes Model.Ast Model.Token Generated.Tables Spec.ExprSyntax Spec.LexKeyword
+From Soy Require Import Model.Bytes Model.Num Model.Values Model.Ast Model.Token Model.AstPrint Generated.Tables Spec.ExprSyntax Spec.LexKeyword
   Proofs.ExprParserProofs Proofs.LexTokens Proofs.LexExpr Proofs.LexPrint Proofs.LexPrintMain Proofs.LexPrintCmd.
 From Coq Require Import ZifyBool ZifyNat ZifyN Lia.
 Open Scope N_scope.
@@ -60,4 +60,122 @@ Proof.
   destruct d; cbn [lex_ok_directive] in Hdd; try contradiction. destruct Hdd as [Hn Hargs]. cbn [c17_idents forallb].
   apply plain_word_iff in Hn. destruct Hn as [_ ->]. cbn [andb].
   apply forallb_concat_map. intros c Hc. apply lex_ok_kw_clause. exact (allP_In _ _ Hargs c Hc).
+Qed.
+
+(* ---------- the converse: lex_ok = shape + keyword clause ----------
+   [lex_shape] is [lex_ok] with "is an ASCII word" in place of "is an ASCII word that is not a keyword" at the
+   identifiers that are printed bare (function names, the head of a global's dotted name); every other clause is
+   the same.  lex_ok e <-> lex_shape e /\ c17_kw_clause e = true: the decidable clause the harness evaluates is
+   exactly what lex_ok demands of identifiers beyond their shape. *)
+Definition dotted_shape (name : bstr) : Prop :=
+  match split_dots [] name with
+  | first :: rest => word_shape first /\ Forall dot_seg rest
+  | [] => False
+  end.
+
+Fixpoint lex_shape (e : node) : Prop :=
+  match e with
+  | NNull _ | NBool _ _ | NInt _ _ => True
+  | NFloat _ f => match fl_print f with Some s => float_txt_ok s | None => True end
+  | NString _ q _ => str_ok q
+  | NGlobal _ name _ => dotted_shape name
+  | NFunc _ name args => word_shape name /\ allP lex_shape args
+  | NListLit _ items => allP lex_shape items
+  | NMapLit _ items => allP (fun kv => str_ok (quote_key (fst kv)) /\ lex_shape (snd kv)) items
+  | NDataRef _ key acc =>
+      alnums key /\
+      allP (fun a => match a with
+                     | NAccIndex _ _ _ => True
+                     | NAccKey _ _ k => alnums k /\ head_digit k = false
+                     | NAccExpr _ _ x => lex_shape x
+                     | _ => False
+                     end) acc
+  | NNot _ a | NNeg _ a => lex_shape a
+  | NBin _ _ a1 a2 => lex_shape a1 /\ lex_shape a2
+  | NTern _ c x y => lex_shape c /\ lex_shape x /\ lex_shape y
+  | _ => False
+  end.
+
+Lemma allP_of_In {A} (P : A -> Prop) l : (forall x, In x l -> P x) -> allP P l.
+Proof. induction l as [|a l IH]; intros H; [exact I|]. split; [apply H; left; reflexivity|apply IH; intros x Hx; apply H; right; exact Hx]. Qed.
+
+Lemma forallb_concat_map_inv {A} (P : bstr -> bool) (f : A -> list bstr) l :
+  forallb P (concat (map f l)) = true -> forall x, In x l -> forallb P (f x) = true.
+Proof.
+  induction l as [|a l IH]; intros H x Hx; [contradiction|]. cbn [map concat] in H. rewrite forallb_app in H.
+  apply Bool.andb_true_iff in H. destruct H as [Ha Hl]. destruct Hx as [<-|Hx]; [exact Ha|apply IH; assumption].
+Qed.
+
+Lemma dotted_ok_iff name : dotted_ok name <-> dotted_shape name /\ c17_not_keyword (c17_global_head name) = true.
+Proof.
+  unfold dotted_ok, dotted_shape, c17_global_head. destruct (split_dots [] name) as [|first rest]; [tauto|].
+  rewrite plain_word_iff. tauto.
+Qed.
+
+Theorem lex_ok_iff : forall e, lex_ok e <-> lex_shape e /\ c17_kw_clause e = true.
+Proof.
+  unfold c17_kw_clause. induction e as [e IH] using size_induction.
+  destruct e; cbn [lex_ok lex_shape c17_idents forallb]; try tauto.
+  - (* global *) rewrite dotted_ok_iff, Bool.andb_true_r. tauto.
+  - (* func *) rewrite plain_word_iff, Bool.andb_true_iff. split.
+    + intros [[Hw Hk] Ha]. split; [split; [exact Hw|]|split; [exact Hk|]].
+      * apply allP_of_In. intros c Hc. apply (IH c); [cbn [size]; pose proof (size_in_list c args Hc); lia|exact (allP_In _ _ Ha c Hc)].
+      * apply forallb_concat_map. intros c Hc. apply (IH c); [cbn [size]; pose proof (size_in_list c args Hc); lia|exact (allP_In _ _ Ha c Hc)].
+    + intros [[Hw Ha] [Hk Hf]]. split; [tauto|]. apply allP_of_In. intros c Hc.
+      apply (IH c); [cbn [size]; pose proof (size_in_list c args Hc); lia|]. split; [exact (allP_In _ _ Ha c Hc)|exact (forallb_concat_map_inv _ _ _ Hf c Hc)].
+  - (* list *) split.
+    + intros Ha. split.
+      * apply allP_of_In. intros c Hc. apply (IH c); [cbn [size]; pose proof (size_in_list c items Hc); lia|exact (allP_In _ _ Ha c Hc)].
+      * apply forallb_concat_map. intros c Hc. apply (IH c); [cbn [size]; pose proof (size_in_list c items Hc); lia|exact (allP_In _ _ Ha c Hc)].
+    + intros [Ha Hf]. apply allP_of_In. intros c Hc.
+      apply (IH c); [cbn [size]; pose proof (size_in_list c items Hc); lia|]. split; [exact (allP_In _ _ Ha c Hc)|exact (forallb_concat_map_inv _ _ _ Hf c Hc)].
+  - (* map *) assert (Hsz : forall kv, In kv items -> (size (snd kv) < size (NMapLit p items))%nat).
+    { intros kv Hc. cbn [size]. pose proof (list_sum_In (fun kv => size (snd kv)) kv _ Hc). lia. }
+    split.
+    + intros Ha. split.
+      * apply allP_of_In. intros kv Hc. destruct (allP_In _ _ Ha kv Hc) as [Hq Hv]. split; [exact Hq|]. apply (IH (snd kv) (Hsz kv Hc)). exact Hv.
+      * apply forallb_concat_map. intros kv Hc. apply (IH (snd kv) (Hsz kv Hc)). exact (proj2 (allP_In _ _ Ha kv Hc)).
+    + intros [Ha Hf]. apply allP_of_In. intros kv Hc. destruct (allP_In _ _ Ha kv Hc) as [Hq Hv]. split; [exact Hq|].
+      apply (IH (snd kv) (Hsz kv Hc)). split; [exact Hv|exact (forallb_concat_map_inv _ _ _ Hf kv Hc)].
+  - (* data ref *) assert (Hsz : forall nsf q x, In (NAccExpr q nsf x) access -> (size x < size (NDataRef p key access))%nat).
+    { intros nsf q x Hc. pose proof (size_in_list _ access Hc) as Hs. cbn [size] in Hs |- *. lia. }
+    split.
+    + intros [Hk Ha]. split; [split; [exact Hk|]|].
+      * apply allP_of_In. intros a Hc. pose proof (allP_In _ _ Ha a Hc) as Hcc. cbn beta in Hcc |- *.
+        destruct a; try contradiction; try exact Hcc. apply (IH a (Hsz _ _ _ Hc)). exact Hcc.
+      * apply forallb_concat_map. intros a Hc. pose proof (allP_In _ _ Ha a Hc) as Hcc. cbn beta in Hcc.
+        destruct a; try contradiction; try reflexivity. cbn [c17_idents]. apply (IH a (Hsz _ _ _ Hc)). exact Hcc.
+    + intros [[Hk Ha] Hf]. split; [exact Hk|]. apply allP_of_In. intros a Hc. pose proof (allP_In _ _ Ha a Hc) as Hcc. cbn beta in Hcc |- *.
+      pose proof (forallb_concat_map_inv _ _ _ Hf a Hc) as Hfa.
+      destruct a; try contradiction; try exact Hcc. cbn [c17_idents] in Hfa. apply (IH a (Hsz _ _ _ Hc)). split; assumption.
+  - (* not *) apply IH. cbn [size]. lia.
+  - (* neg *) apply IH. cbn [size]. lia.
+  - (* bin *) rewrite forallb_app, Bool.andb_true_iff, (IH e1), (IH e2); [tauto|cbn [size]; lia|cbn [size]; lia].
+  - (* tern *) rewrite !forallb_app, !Bool.andb_true_iff, (IH e1), (IH e2), (IH e3); [tauto|cbn [size]; lia..].
+Qed.
+
+(* print commands: directive names too *)
+Definition lex_shape_directive (d : node) : Prop :=
+  match d with NDirective _ name args => word_shape name /\ allP lex_shape args | _ => False end.
+Definition lex_shape_print (n : node) : Prop :=
+  match n with NPrint _ arg dirs => lex_shape arg /\ allP lex_shape_directive dirs | _ => False end.
+
+Theorem lex_ok_print_iff n : lex_ok_print n <-> lex_shape_print n /\ c17_kw_clause n = true.
+Proof.
+  destruct n; cbn [lex_ok_print lex_shape_print]; try tauto. unfold c17_kw_clause. cbn [c17_idents].
+  rewrite forallb_app, Bool.andb_true_iff. fold (c17_kw_clause n). rewrite (lex_ok_iff n). unfold c17_kw_clause.
+  assert (Hd : forall d, lex_ok_directive d <-> lex_shape_directive d /\ forallb c17_not_keyword (c17_idents d) = true).
+  { intros d. destruct d; cbn [lex_ok_directive lex_shape_directive]; try tauto. cbn [c17_idents forallb].
+    rewrite plain_word_iff, Bool.andb_true_iff. split.
+    - intros [[Hw Hk] Ha]. split; [split; [exact Hw|]|split; [exact Hk|]].
+      + apply allP_of_In. intros c Hc. apply (lex_ok_iff c). exact (allP_In _ _ Ha c Hc).
+      + apply forallb_concat_map. intros c Hc. apply (lex_ok_iff c). exact (allP_In _ _ Ha c Hc).
+    - intros [[Hw Ha] [Hk Hf]]. split; [tauto|]. apply allP_of_In. intros c Hc. apply (lex_ok_iff c).
+      split; [exact (allP_In _ _ Ha c Hc)|exact (forallb_concat_map_inv _ _ _ Hf c Hc)]. }
+  split.
+  - intros [Ha Hds]. split; [split; [tauto|]|split; [tauto|]].
+    + apply allP_of_In. intros d Hin. apply (Hd d). exact (allP_In _ _ Hds d Hin).
+    + apply forallb_concat_map. intros d Hin. apply (Hd d). exact (allP_In _ _ Hds d Hin).
+  - intros [[Ha Hds] [Hk Hf]]. split; [tauto|]. apply allP_of_In. intros d Hin. apply (Hd d).
+    split; [exact (allP_In _ _ Hds d Hin)|exact (forallb_concat_map_inv _ _ _ Hf d Hin)].
 Qed.
